@@ -119,7 +119,36 @@ fn tmp_path(tag: &str) -> String {
     format!("{}/{}-{}-{}.json", work_dir(), tag, std::process::id(), TMP_COUNTER.fetch_add(1, Ordering::SeqCst))
 }
 
-/// Runs `cmd` with a wall-clock limit; returns (stdout, exited normally, timed out).
+/// Runs `cmd` with a CPU-time limit; returns (stdout, exited normally, timed out).
+/// CPU seconds (user + system, including waited-for children) consumed by process `pid`, read
+/// from /proc; `None` when the process is gone. Time limits are CPU time so that a machine under
+/// load (a starved but healthy process) is not mistaken for a hang; a generous wall-clock cap
+/// still ends a process that sleeps forever.
+pub fn cpu_seconds(pid: u32) -> Option<f64> {
+    let stat = std::fs::read_to_string(format!("/proc/{pid}/stat")).ok()?;
+    let rest = &stat[stat.rfind(')')? + 1..];
+    let f: Vec<&str> = rest.split_whitespace().collect();
+    // after the command name: state is f[0]; utime, stime, cutime, cstime are fields 14-17 of the line
+    let ticks: u64 = [11usize, 12, 13, 14].iter().filter_map(|i| f.get(*i).and_then(|x| x.parse::<u64>().ok())).sum();
+    Some(ticks as f64 / 100.0)
+}
+
+/// CPU seconds of `pid` and of its live descendants (a command-line case runs the solver binary
+/// as a grandchild).
+fn cpu_seconds_tree(pid: u32) -> f64 {
+    let mut total = cpu_seconds(pid).unwrap_or(0.0);
+    if let Ok(children) = std::fs::read_to_string(format!("/proc/{pid}/task/{pid}/children")) {
+        for c in children.split_whitespace() {
+            if let Ok(c) = c.parse::<u32>() {
+                total += cpu_seconds_tree(c);
+            }
+        }
+    }
+    total
+}
+
+const WALL_FACTOR: u64 = 12;
+
 fn run_limited(mut cmd: Command, secs: u64) -> (String, bool, bool) {
     cmd.stdout(Stdio::piped()).stderr(Stdio::null()).stdin(Stdio::null());
     let mut child = cmd.spawn().expect("spawn child");
@@ -139,7 +168,7 @@ fn run_limited(mut cmd: Command, secs: u64) -> (String, bool, bool) {
                 return (s, status.success(), false);
             }
             Ok(None) => {
-                if start.elapsed() > Duration::from_secs(secs) {
+                if cpu_seconds_tree(child.id()) > secs as f64 || start.elapsed() > Duration::from_secs(secs * WALL_FACTOR) {
                     let _ = child.kill();
                     let _ = child.wait();
                     let s = rx.recv_timeout(Duration::from_secs(5)).unwrap_or_default();
@@ -162,7 +191,7 @@ pub fn eval_in_child(case: &Case, secs: u64) -> Option<Violation> {
     let (out, ok, timed_out) = run_limited(cmd, secs);
     let _ = std::fs::remove_file(&path);
     if timed_out {
-        return Some(Violation { class: "HANG".into(), msg: format!("no result within {secs} s of wall-clock time (a loop that never polls the termination condition)"), op_index: case.as_lib().map(|c| c.ops.len().saturating_sub(1)).unwrap_or(0) });
+        return Some(Violation { class: "HANG".into(), msg: format!("no result within {secs} s of CPU time (a loop that never polls the termination condition)"), op_index: case.as_lib().map(|c| c.ops.len().saturating_sub(1)).unwrap_or(0) });
     }
     if !ok {
         return Some(Violation { class: "CRASH".into(), msg: "the process died (abort / stack overflow / double panic)".into(), op_index: case.as_lib().map(|c| c.ops.len().saturating_sub(1)).unwrap_or(0) });
@@ -230,8 +259,27 @@ fn run_chunk(prop: &str, tier: Tier, seed: u64, from: u64, to: u64, agg: &Mutex<
         let mut l_stats: Vec<J> = vec![];
         let mut l_viol: Vec<(u64, Case, Violation)> = vec![];
         let mut l_samples: Vec<J> = vec![];
+        let mut cpu_at_last_line = 0.0f64;
+        let mut wall_at_last_line = Instant::now();
         loop {
-            match rx.recv_timeout(Duration::from_secs(watchdog_secs())) {
+            let received = match rx.recv_timeout(Duration::from_secs(2)) {
+                Err(mpsc::RecvTimeoutError::Timeout) => {
+                    // the watchdog counts the CPU time the worker spent since its last line
+                    let cpu = cpu_seconds_tree(child.id());
+                    if cpu - cpu_at_last_line > watchdog_secs() as f64 || wall_at_last_line.elapsed() > Duration::from_secs(watchdog_secs() * WALL_FACTOR) {
+                        Err(())
+                    } else {
+                        continue;
+                    }
+                }
+                Err(mpsc::RecvTimeoutError::Disconnected) => Err(()),
+                Ok(l) => {
+                    cpu_at_last_line = cpu_seconds_tree(child.id());
+                    wall_at_last_line = Instant::now();
+                    Ok(l)
+                }
+            };
+            match received {
                 Ok(Line::Text(l)) => {
                     let mut it = l.splitn(3, ' ');
                     match it.next() {
